@@ -11,17 +11,22 @@ def run(tier, only=None):
     rep = Report(PROP, tier, "CrossHair symbolic execution of bounded operation histories against a set-of-live-ids model of Node.store; z3 decides each path")
     t = 700 if tier == "quick" else 2400
     conds = []
+    quick = tier == "quick"
+    lad = [8] if quick else None
     for op in range(9):
         if op in (1, 2, 3, 4, 5):
-            for a1 in range(8):
-                conds.append(Cond("harness.h_c14", "h_history", t, part=(a1 + 1) * 10 + op, label="h_history[depth 2, first: %s on held node %d]" % (OPS[op], a1)))
+            for a1 in ((0, 1, 3, 6) if quick else range(8)):
+                conds.append(Cond("harness.h_c14", "h_history", t, part=(a1 + 1) * 10 + op, ladder=lad,
+                                  label="h_history[depth 2, first: %s on held node %d]" % (OPS[op], a1)))
         elif op == 7:
             for strict in (0, 1):
-                for op2 in range(9):
-                    conds.append(Cond("harness.h_c14", "h_history", t, part=(op2 + 1) * 100 + (strict + 1) * 10 + op,
+                for op2 in (range(9) if (strict or not quick) else (3, 4, 8)):
+                    conds.append(Cond("harness.h_c14", "h_history", t, part=(op2 + 1) * 100 + (strict + 1) * 10 + op, ladder=lad,
                                       label="h_history[depth 2, first: prune strict=%d, second: %s]" % (strict, OPS[op2])))
         else:
-            conds.append(Cond("harness.h_c14", "h_history", t, part=op, label="h_history[depth 2, first: %s]" % OPS[op]))
+            for op2 in range(9):
+                conds.append(Cond("harness.h_c14", "h_history", t, part=(op2 + 1) * 100 + op, ladder=lad,
+                                  label="h_history[depth 2, first: %s, second: %s]" % (OPS[op], OPS[op2])))
     if tier != "quick":
         # depth 3 on a small world (4-node tree + lone node), registry-only operations; first operation and operand pinned
         for op1 in range(6):
@@ -31,7 +36,10 @@ def run(tier, only=None):
                                       label="h_history[depth 3 small world, first: %s on held node %d, second: %s]" % (OPS[op1], a1, OPS[op2])))
     if only:
         conds = [c for c in conds if only in c.label]
+    heavy = ("from_json", "prune strict=1", "delete_node_instance", "replace_child")
+    conds.sort(key=lambda c: -sum(c.label.count(h) for h in heavy))        # longest partitions first
     rep.bounds = {"world": "dataset{title, creator#c1{organizationName}, contact{references c1}, bogus{title}} plus a lone node; pool grows with copies/imports",
+                  "operands": "quick: first operand over held nodes {0,1,3,6}, second over the first 8 held nodes; thorough: all 8 / 12",
                   "histories": "depth 2%s over %r (depth 3: 4-node tree + lone node, the six registry-only operations); operands: which held node (<= 8/10 positions), delete_old / children / strict flags; first operation and its operand pinned per process"
                                % (" and 3" if tier != "quick" else "", OPS)}
     rep.extra["rule"] = "one CrossHair condition per first operation (per pair for depth 3); non-trivial = confirmed over all paths"
